@@ -148,7 +148,11 @@ def g_tkhd(c):
     p += s16(c.pick('alternate_group', AS16(0)))
     p += s16(c.pick('volume', AS16(0)))
     p += u16(0)
-    p += b''.join(s32(x) for x in MATRIX)
+    # identity, 90 degree rotation (a -1.0 entry), mirror, and the extremes of the signed 16.16 / 2.30 entries
+    m = c.pick('matrix', [MATRIX, [0, 0x00010000, 0, -0x00010000, 0, 0, 720 << 16, 0, 0x40000000],
+                          [-0x00010000, 0, 0, 0, 0x00010000, 0, 1280 << 16, 0, 0x40000000],
+                          [0x7FFFFFFF, -0x80000000, -1, 1, 0, 0x7FFFFFFF, -0x80000000, -1, 0x7FFFFFFF]])
+    p += b''.join(s32(x) for x in m)
     p += u32(c.pick('width', A32(1280 << 16)))
     p += u32(c.pick('height', A32(720 << 16)))
     return fullbox(b'tkhd', v, flags, p, c)
